@@ -38,6 +38,8 @@ def main():
     c.add_argument("--tier", default=os.environ.get("VERIF_TIER", "quick"), choices=["quick", "thorough"])
     r = sub.add_parser("replay")
     r.add_argument("path")
+    st = sub.add_parser("selftest")
+    st.add_argument("ids", nargs="*")
     a = ap.parse_args()
     try:
         if a.cmd == "setup":
@@ -47,6 +49,9 @@ def main():
             modname, kw = CHECKS[a.prop]
             mod = importlib.import_module(modname)
             sys.exit(mod.run(a.prop, a.tier, **kw))
+        if a.cmd == "selftest":
+            import selftest
+            sys.exit(selftest.main(a.ids))
         if a.cmd == "replay":
             import replay_cmd
             sys.exit(replay_cmd.main(a.path))
